@@ -62,10 +62,61 @@ def gen_c06_matgrow(rnd, tier, k):
     return run.Case("C06-matgrow-%d" % k, L, dict(stream="matgrow", k=k))
 
 
+def gen_c06_namechurn(rnd, tier, k):
+    """Aimed at the name tables: waves of `add many names - delete most of them - add again`, so that the string pool of the symbol
+    table fills up while more than half of it belongs to deleted names (the state in which it is compacted instead of doubled);
+    names of mixed length, some waves on rows, some on columns, some on both; every name is looked up after every wave (dumpx)."""
+    m = gen_hist.base_lp(rnd, 0)
+    L = model.script_any(m, "p0", rnd)
+    serial = [0]
+
+    def name(pre):
+        serial[0] += 1
+        return "%s%d%s" % (pre, serial[0], "q" * rnd.choice([0, 0, 1, 3, 7, 12]))
+
+    for wave in range(rnd.randint(2, 5)):
+        what = rnd.choice(["c", "c", "r", "b"])
+        n = rnd.randint(20, 140)
+        for t in range(n):
+            if what in "cb":
+                op = ("new_col", F(rnd.randint(-3, 3)), F(0), INF, name(rnd.choice(["v", "w", "Kol"])))
+                m.apply(op)
+                L.append(render(op))
+            if what in "rb":
+                op = ("new_row", F(rnd.randint(-3, 3)), rnd.choice("LGE"), name(rnd.choice(["r", "Row"])))
+                m.apply(op)
+                L.append(render(op))
+        L.append("dumpx p0" if m.nrows * m.ncols <= 2500 else "dump p0")
+        frac = rnd.choice([0.5, 0.7, 0.9, 0.95, 1.0])
+        if what in "cb" and m.ncols:
+            sel = rnd.sample(range(m.ncols), max(1, int(m.ncols * frac)))
+            op = ("delete_cols", sel)
+            m.apply(op)
+            L.append(render(op))
+        if what in "rb" and m.nrows:
+            sel = rnd.sample(range(m.nrows), max(1, int(m.nrows * frac)))
+            op = ("delete_rows", sel)
+            m.apply(op)
+            L.append(render(op))
+        L.append("dumpx p0" if m.nrows * m.ncols <= 2500 else "dump p0")
+        L.append("storecheck p0")
+    # one more wave of adds on top of the thinned tables
+    for t in range(rnd.randint(30, 120)):
+        op = ("new_col", F(1), F(0), INF, name("z")) if rnd.random() < 0.6 else ("new_row", F(0), "L", name("s"))
+        m.apply(op)
+        L.append(render(op))
+        if t % 10 == 9:
+            L.append("dump p0")
+    L += ["dumpx p0" if m.nrows * m.ncols <= 2500 else "dump p0", "storecheck p0"]
+    return run.Case("C06-namechurn-%d" % k, L, dict(stream="namechurn", k=k))
+
+
 def gen_c06(tier, seed, stream, k):
     rnd = run.rng("C06", tier, seed, stream, k)
     if stream == "matgrow":
         return gen_c06_matgrow(rnd, tier, k)
+    if stream == "namechurn":
+        return gen_c06_namechurn(rnd, tier, k)
     nm = gen_hist.Namer()
     nm.deflook = True
     if stream == "long":
@@ -161,6 +212,7 @@ def fresh_lines(m, cfg, solve, rnd):
 
 WARM_KINDS = [("change_bound", 10), ("change_bounds", 4), ("change_objcoef", 5), ("change_rhscoef", 4), ("change_objsense", 1),
               ("new_col", 1), ("add_col", 4), ("add_cols", 1), ("add_row", 2), ("add_rows", 1), ("new_row", 1)]
+FILE_KINDS = [("change_sense", 14), ("change_senses", 4), ("change_range", 2), ("change_rhscoef", 2), ("change_bound", 2)]
 RSOLVES = ["opt_primal p0", "opt_dual p0"]
 
 
@@ -192,7 +244,16 @@ def gen_c05_warm(rnd, stream, k):
         # problems built through the API never have, and that every later edit has to keep valid or drop
         from checks import iofam
         from vlib import iofmt
-        m = iofam.io_model(rnd, "noint")
+        if k % 2:
+            # mostly feasible and bounded, so that a re-solve has an optimal value to get wrong
+            from vlib import gen_lp
+            m = gen_lp.family(rnd, rnd.choice(["planted-opt", "planted-opt", "small-int", "degenerate", "boxed"]))
+            # a column without any entry cannot be declared in an MPS file
+            m.cols = [c for c in m.cols if c.obj != 0 or any(c in r.coef for r in m.rows)]
+            if not m.cols:
+                m = iofam.io_model(rnd, "noint")
+        else:
+            m = iofam.io_model(rnd, "noint")
         for c in m.cols:
             c.isint = 0
         text, m = iofmt.mps_text(m, rnd)
@@ -218,7 +279,9 @@ def gen_c05_warm(rnd, stream, k):
                     m.apply(op)
                     ops = [op]
                 else:
-                    ops = list(gen_hist.history(rnd, m, nm, 1, lambda s: 0.55, WARM_KINDS))
+                    # every second file-read history also re-types rows: the sign of the row's logical changes in the column copy
+                    # of the matrix, and the row-wise copy the reader left behind has to follow or go
+                    ops = list(gen_hist.history(rnd, m, nm, 1, lambda s: 0.55, FILE_KINDS if stream == "filewarm" and k % 2 else WARM_KINDS))
                 for op in ops:
                     L += [render(op), "dumpsol p0"]
             solve = rnd.choice(RSOLVES)
@@ -250,10 +313,74 @@ def gen_c05_warm(rnd, stream, k):
     return run.Case("C05-%s-%d" % (stream, k), L, dict(stream=stream, k=k), files)
 
 
+def gen_c05_filesense(rnd, stream, k):
+    """a sparse LP with 6-14 rows read from an LP or MPS file (the readers leave a row-wise copy of the matrix, logicals included,
+    that the simplex uses for z.A whenever z is sparse), then rounds of: re-type one or two rows, re-solve with the rational
+    simplex, compare with a fresh build.  Re-typing changes the sign of the row's logical in the column-wise matrix."""
+    from checks import iofam
+    from vlib import iofmt, gen_lp
+    nr, nc = rnd.randint(6, 14), rnd.randint(5, 12)
+    m = gen_lp.planted_optimal(rnd, nr, nc, "int", dens=rnd.choice([2.0, 3.0, 4.0]) / nc)
+    m.cols = [c for c in m.cols if c.obj != 0 or any(c in r.coef for r in m.rows)]
+    if not m.cols:
+        m = iofam.io_model(rnd, "noint")
+    gen_lp._names(m)
+    for c in m.cols:
+        c.isint = 0
+    cfg = sf.rnd_config(rnd, limits=False, bases=False)
+    cfg["entry"] = "opt_primal"
+    if rnd.random() < 0.5:
+        cfg["pp"], cfg["dp"] = 3, 7      # the defaults
+    lp = rnd.random() < 0.5
+    text, m = (iofmt.lp_text if lp else iofmt.mps_text)(m, rnd)
+    fn = "fs%d.%s" % (k, "lp" if lp else "mps")
+    L = ["read_prob p0 @W@/%s %s" % (fn, "LP" if lp else "MPS"), "dump p0"] + sf.param_lines(cfg, "p0")
+    L += [rnd.choice(RSOLVES), "dumpsol p0"]
+    for b in range(rnd.randint(3, 6)):
+        for _ in range(rnd.randint(1, 2)):
+            if not m.nrows:
+                break
+            i = rnd.randrange(m.nrows)
+            op = ("change_sense", i, rnd.choice([x for x in "LGE" if x != m.rows[i].sense] or ["L"]))
+            m.apply(op)
+            L += [render(op), "dumpsol p0"]
+        solve = rnd.choice(RSOLVES)
+        L += [solve, "dumpsol p0"]
+        L += fresh_lines(m, cfg, solve, rnd)
+    L.append("storecheck p0")
+    return run.Case("C05-%s-%d" % (stream, k), L, dict(stream=stream, k=k), {fn: text.encode()})
+
+
+def gen_c05_pivotdel(rnd, stream, k):
+    """solve, pivot a row's logical into the basis (the stored basis follows, the stored solution stays the one of the old basis),
+    delete that row - now basic in the stored basis - and probe the accessors: the deletion may keep the stored solution only if
+    it is still optimal without the row.  Pivot-in itself is not a C05 operation: nothing is probed between it and the deletion, and
+    QSget_objval (which after a pivot-in hands out a running dual objective) is not judged in these histories."""
+    m = gen_hist.base_lp(rnd, rnd.choice([1, 3, 3]))
+    cfg = sf.rnd_config(rnd, limits=False, bases=False)
+    cfg["entry"] = "opt_primal"
+    L = model.script_any(m, "p0", rnd) + sf.param_lines(cfg, "p0")
+    L += [rnd.choice(RSOLVES), "dumpsol p0"]
+    for _ in range(rnd.randint(1, 2)):
+        if m.nrows < 2:
+            break
+        i = rnd.randrange(m.nrows)
+        L.append("pivotin_row p0 1 %d" % i)
+        op = ("delete_row", i)
+        m.apply(op)
+        L += [render(op), "dumpsol p0"]
+    L.append("storecheck p0")
+    return run.Case("C05-%s-%d" % (stream, k), L, dict(stream=stream, k=k))
+
+
 def gen_c05(tier, seed, stream, k):
     rnd = run.rng("C05", tier, seed, stream, k)
     if stream in ("warm", "basisload", "filewarm"):
         return gen_c05_warm(rnd, stream, k)
+    if stream == "pivotdel":
+        return gen_c05_pivotdel(rnd, stream, k)
+    if stream == "filesense":
+        return gen_c05_filesense(rnd, stream, k)
     nm = gen_hist.Namer()
     m = gen_hist.base_lp(rnd)
     cfg = sf.rnd_config(rnd, limits=False, bases=False)
@@ -334,7 +461,7 @@ def judge_c05(case, res):
     try:
         for ln, cmd, slot, op, ev, models in vscript.walk(case.script, res.events):
             m = models.get(slot)
-            if cmd == "dump" and m is None and ev.get("rc") == 0 and case.meta.get("stream") == "filewarm":
+            if cmd == "dump" and m is None and ev.get("rc") == 0 and case.meta.get("stream") in ("filewarm", "filesense"):
                 models[slot] = m = model.from_dump(ev)       # what the reader delivered is the reference from here on
                 C["fromfile"] = C.get("fromfile", 0) + 1
                 continue
@@ -397,6 +524,8 @@ def judge_c05(case, res):
                     # between an edit and the next solve: accessors must fail or still be exactly optimal
                     C["stale-probes"] = C.get("stale-probes", 0) + 1
                     av = {kk: ev.get(kk + "_rc") == 0 for kk in ("objval", "x", "pi", "slack", "rcv")}
+                    if case.meta.get("stream") == "pivotdel":
+                        av["objval"] = False
                     if not any(av.values()):
                         C["stale-probes:all-fail"] = C.get("stale-probes:all-fail", 0) + 1
                     elif av["x"] and av["pi"]:
@@ -433,7 +562,7 @@ def chunk(payload):
     try:
         gen = gen_c06 if prop == "C06" else gen_c05
         cases = [gen(tier, seed, stream, k) for k in range(start, start + count)]
-        res = run.run_cases(os.path.join(bindir, "qsdrive"), cases, wd, batch=8 if stream not in ("long", "matgrow") else 1, timeout=600)
+        res = run.run_cases(os.path.join(bindir, "qsdrive"), cases, wd, batch=8 if stream not in ("long", "matgrow", "namechurn") else 1, timeout=600)
         for c in cases:
             r = res[c.id]
             if prop == "C06":
@@ -461,16 +590,16 @@ def chunk(payload):
 
 
 RULES = {
-    "C06": "histories of valid edit calls (all add/delete/change variants incl. named and list forms) generated against the reference model from four base LPs (incl. empty); after every step (long histories: every 12th) the full problem is dumped through the query API and compared with the reference model as exact rationals; `long` histories grow past 100 rows/100 cols/1000 nz and shrink to empty; `matgrow` histories append a column and a row listing it first at every step (free space of the column store walked through every residue; mixed NULL/explicit/default-looking names in list adds); ranges of non-range rows must read 0; non-trivial = history with >=1 edit; distinct = hash(script)",
-    "C05": "histories: blocks of 1-5 random valid edits (each followed by a probe of every solution accessor) then a solve by one of {QSexact_solver primal/dual, mpq_QSopt_primal, mpq_QSopt_dual}, optionally after loading a random basis or a copy round-trip; streams: rand, pattern (incl. a range row capping the objective that is re-typed after the solve), warm (only factorization-preserving edits between rational-simplex solves, extra free/duplicate/empty columns), basisload (load random/all-slack/file basis, then delete rows/columns), filewarm (problem read from an MPS file, then warm edits); the same solve is run on a freshly built copy of the current LP and both are compared with each other and with the certified reference; non-trivial = history with a compared re-solve after a previous solve, or an accessor that still answered after an edit; distinct = hash(script)",
+    "C06": "histories of valid edit calls (all add/delete/change variants incl. named and list forms) generated against the reference model from four base LPs (incl. empty); after every step (long histories: every 12th) the full problem is dumped through the query API and compared with the reference model as exact rationals; `long` histories grow past 100 rows/100 cols/1000 nz and shrink to empty; `matgrow` histories append a column and a row listing it first at every step (free space of the column store walked through every residue; mixed NULL/explicit/default-looking names in list adds); `namechurn` histories add, delete and re-add names in waves so that the name tables' string pool is compacted; ranges of non-range rows must read 0; non-trivial = history with >=1 edit; distinct = hash(script)",
+    "C05": "histories: blocks of 1-5 random valid edits (each followed by a probe of every solution accessor) then a solve by one of {QSexact_solver primal/dual, mpq_QSopt_primal, mpq_QSopt_dual}, optionally after loading a random basis or a copy round-trip; streams: rand, pattern (incl. a range row capping the objective that is re-typed after the solve), warm (only factorization-preserving edits between rational-simplex solves, extra free/duplicate/empty columns), basisload (load random/all-slack/file basis, then delete rows/columns), filewarm (problem read from an MPS file, then warm edits; every second history also re-types rows), pivotdel (solve, pivot a row's logical in, delete that row, probe the accessors), filesense (sparse 6-14 row LP read from a file, rounds of re-typing rows and re-solving); the same solve is run on a freshly built copy of the current LP and both are compared with each other and with the certified reference; non-trivial = history with a compared re-solve after a previous solve, or an accessor that still answered after an edit; distinct = hash(script)",
 }
 
 
 def plan(prop, tier):
     q = tier == "quick"
     if prop == "C06":
-        return [("short", 4000 if q else 60000), ("long", 96 if q else 1500), ("matgrow", 160 if q else 4000)]
-    return [("rand", 200 if q else 5000), ("pattern", 40 if q else 600), ("warm", 150 if q else 4000), ("basisload", 100 if q else 3000), ("filewarm", 100 if q else 3000)]
+        return [("short", 4000 if q else 60000), ("long", 96 if q else 1500), ("matgrow", 160 if q else 4000), ("namechurn", 80 if q else 2500)]
+    return [("rand", 200 if q else 5000), ("pattern", 40 if q else 600), ("warm", 150 if q else 4000), ("basisload", 100 if q else 3000), ("filewarm", 100 if q else 4000), ("pivotdel", 150 if q else 4000), ("filesense", 150 if q else 4000)]
 
 
 def run_check(prop, tier, seed):
@@ -480,7 +609,7 @@ def run_check(prop, tier, seed):
                        "explicit zeros stored by change_coef(...,0) are tolerated in extractions (not part of the mathematical problem)"]
     payloads = []
     for stream, n in plan(prop, tier):
-        step = (2 if stream == "long" else (4 if stream == "matgrow" else (40 if prop == "C06" else 5)))
+        step = (2 if stream == "long" else (4 if stream in ("matgrow", "namechurn") else (40 if prop == "C06" else 5)))
         for s in range(0, n, step):
             payloads.append(dict(prop=prop, tier=tier, seed=seed, stream=stream, start=s, count=min(step, n - s), bindir=b["asan"]))
     payloads.sort(key=lambda p: 0 if p["stream"] == "long" else 1)
